@@ -175,6 +175,29 @@ def main(tier):
             eb = {(Z, s): float(v) for Z, d in cp.items() for s, v in enumerate(d['occ']) if v > 0}
             sweep(ck, L, 'ElectronConfig_Biggs', eb, Zs, shell_m, st)
             if config == 'shipped' and fl == 'plain':
+                # a single-line query right after a GROUP query of the same element (K-alpha, L-beta, a doublet, ... then one of the lines): the group functions
+                # call the single-line code themselves, so whatever they leave behind meets exactly these calls.  Every single line of every third element
+                # after every group macro, against the same line asked on its own
+                Lq = execlib.Lib(config, shuffle=False)
+                _Zg = np.arange(1 + (ck.seed % 3), 121, 3)
+                _S = np.array([v for v in range(ln_lo, ln_hi + 1) if v not in group_vals])
+                _G = np.array(sorted(group_vals))
+                for fn_ in ('LineEnergy', 'RadRate'):
+                    zz, ss = [x.ravel() for x in np.meshgrid(_Zg, _S, indexing='ij')]
+                    alone = Lq.call(fn_, zz, ss)
+                    zq, gq, sq = [x.ravel() for x in np.meshgrid(_Zg, _G, _S, indexing='ij')]
+                    reqz = np.repeat(zq, 2); reql = np.empty(2 * len(zq), int); reql[0::2] = gq; reql[1::2] = sq
+                    both = Lq.call(fn_, reqz, reql)
+                    st['calls'] += len(zz) + len(reqz)
+                    st['single_line_queries_right_after_a_group_query'] = st.get('single_line_queries_right_after_a_group_query', 0) + len(zq)
+                    av = np.broadcast_to(alone.v.reshape(len(_Zg), 1, len(_S)), (len(_Zg), len(_G), len(_S))).ravel()
+                    ast = np.broadcast_to(alone.status.reshape(len(_Zg), 1, len(_S)), (len(_Zg), len(_G), len(_S))).ravel()
+                    bad = np.nonzero((both.v[1::2].view('u8') != av.view('u8')) | (both.status[1::2] != ast))[0]
+                    for k in bad[:3]:
+                        gname = [n_ for n_, v_ in lines_by_value.items() if v_ == int(gq[k])] if False else int(gq[k])
+                        ck.violation('c01:%s:single-line-value-depends-on-a-preceding-group-query' % fn_, '%s(%d, %d) returns %r (status %d) right after %s(%d, %d) and %r (status %d) on its own' % (
+                            fn_, int(zq[k]), int(sq[k]), float(both.v[1::2][k]), int(both.status[1::2][k]), fn_, int(zq[k]), int(gq[k]), float(av[k]), int(ast[k])),
+                            dict(call='%s(%d,%d)' % (fn_, int(zq[k]), int(sq[k])), preceded_by='%s(%d,%d)' % (fn_, int(zq[k]), int(gq[k])), config=config))
                 # the tables are those of data/*.dat of the tree, whatever lies around in it or is set in the environment of the build
                 _zz, _ss = [x.ravel() for x in np.meshgrid(np.arange(1, 121), np.asarray(shell_m)[:12], indexing='ij')]
                 _zl, _ll = [x.ravel() for x in np.meshgrid(np.arange(1, 121), np.asarray(line_m)[::7], indexing='ij')]
